@@ -117,10 +117,10 @@ Proof.
   replace (c_clip (set_in c i1)) with (c_clip c) by (destruct c; reflexivity).
   replace (c_clip (set_in c i2)) with (c_clip c) by (destruct c; reflexivity).
   rewrite !c_in_set_in.
-  pose proof (resp_parse_for (c_state c) (k_ext (c_clip c)) i1 i2 Hs) as Hp.
+  pose proof (resp_parse_for (c_state c) (k_ext (c_clip c)) (fix_extlimit cfg) i1 i2 Hs) as Hp.
   unfold rres_rel in Hp.
-  destruct (parse_for (c_state c) (k_ext (c_clip c)) i1) as [m1 j1|e1],
-           (parse_for (c_state c) (k_ext (c_clip c)) i2) as [m2 j2|e2]; try contradiction.
+  destruct (parse_for (c_state c) (k_ext (c_clip c)) (fix_extlimit cfg) i1) as [m1 j1|e1],
+           (parse_for (c_state c) (k_ext (c_clip c)) (fix_extlimit cfg) i2) as [m2 j2|e2]; try contradiction.
   - destruct Hp as [-> Hj]. rewrite !set_in_set_in. rewrite !apply_msg_set_in.
     unfold arel, with_in; cbn [a_client a_owner a_events a_close_others].
     split; [apply crel_set_in; exact Hj|repeat split; auto].
